@@ -321,7 +321,7 @@ func c04TreeGen(tier Tier) TreeGen {
 		Kinds: stackKinds,
 		Leaf:  func(t *rapid.T) Val { return genPrimVal(t, true, true) },
 		Conds: true, CondExprStack: true, CondExprCond: true, NotAsCondExpr: true,
-		NilLeaves: true, EmptyStacks: true, Caps: true, IndexOpts: true, FIFOOpt: true, Options: true, Wraps: true, NoOpConds: true, DeepChains: true, Ambient: true, WideRuns: true, NoNestAfter: true, ReadOnlyNodes: true, RejectValidity: true,
+		NilLeaves: true, EmptyStacks: true, Caps: true, IndexOpts: true, FIFOOpt: true, Options: true, Wraps: true, NoOpConds: true, DeepChains: true, Ambient: true, Pasts: true, WideRuns: true, NoNestAfter: true, ReadOnlyNodes: true, RejectValidity: true,
 	}
 	if tier.Thorough {
 		g.MaxDepth, g.MaxWidth, g.Budget = 5, 8, 55
